@@ -755,7 +755,7 @@ def scripts_c15(tier, rng):
         for l in g.script():
             lines.append(l)
             w = l.split()[0]
-            if w in ("vote", "app", "trunc", "purge", "commit", "ud", "w", "widle", "open"):
+            if w in ("vote", "app", "trunc", "purge", "commit", "ud", "w", "widle", "open", "dumpwstep"):
                 lines += ["stat", "res"]
         lines += ["flush 9999", "widle", "drain", "stat", "res"]
         out.append((f"c15_{i}", lines))
@@ -1551,6 +1551,11 @@ def scripts_c04(tier, rng):
         lines += ["widle", "stat", "dir"]
         out.append((f"c04big_{j}", lines))
     stats["large-pipelined-batch"] = 1 if tier == "quick" else 3
+    # more requests than the bounded queue and one worker batch hold (1024), against a slow worker;
+    # then an acknowledged flush: everything journalled must be on disk
+    for j in range(1 if tier == "quick" else 3):
+        out.append((f"c04burst_{j}", ["cfg", "open", f"burst {1100 + rng.below(400)} 1 0", "flush 9000", "widle", "stat", "dir",
+                                      "st", f"read 0 3", "dumpw"]))
     return out, stats
 
 
